@@ -17,10 +17,9 @@ EXPLANATION = ('The repository header engine_global_table.h is instantiated on V
                'asked for; two concurrent registrations of different keys get the two distinct slots 0 and 1 and both objects are in the table afterwards; two concurrent registrations of the same key with equal payload get the same '
                'slot, and count stays 1; with different payloads exactly one wins and the other ends in mju_error; sequential histories: slots are dense (0,1,2,...), stable, case-insensitive duplicates map to the first slot, '
                'lookups by name and slot agree, unknown keys and slots >= count return nothing.')
-BOUNDS = {'quick': {'threads': 'writer+reader(slot), writer+reader(key), writer+writer (distinct keys / same key)', 'table': 'empty or holding one object at the start', 'histories': 'up to 3 sequential registrations'},
+BOUNDS = {'quick': {'threads': 'writer+reader(slot), writer+reader(key), writer+writer (distinct keys / same key)', 'table': 'empty or holding one object at the start', 'histories': 'up to 3 sequential registrations with duplicate keys; 17 registrations across the 15-object block boundary'},
           'thorough': {'threads': 'plus two writers and a reader', 'histories': 'up to 4'}}
-OUTSIDE = ('weak-memory reorderings (the exploration is sequentially consistent; the acquire/release annotations themselves are not checked); the block boundary at 15 objects (needs 16 registrations; the allocation of the second block is '
-           'a sequential step under the lock); the real plugin / resource-provider / decoder object types of engine_plugin.cc (string-owning C++ objects); ThreadSanitizer-level data-race detection.')
+OUTSIDE = ('weak-memory reorderings (the exploration is sequentially consistent; the acquire/release annotations themselves are not checked); concurrent registrations across the block boundary at 15 objects (the boundary is crossed in the sequential histories of 17 / 31 registrations); allocation failure of a new block; the real plugin / resource-provider / decoder object types of engine_plugin.cc (string-owning C++ objects); ThreadSanitizer-level data-race detection.')
 ASSUMPTIONS = ['error-message formatting (snprintf, the temporary std::string) has empty bodies', 'sequential consistency', 'std::mutex::lock / unlock = a blocking lock (pthread_mutex_lock / unlock are stubbed accordingly)', 'thread_local lock counter: one cell per thread', 'std::tolower on ASCII letters',
                'keys are NUL-terminated within 8 bytes']
 BUDGET = {'quick': 900, 'thorough': 2400}
@@ -226,30 +225,71 @@ def unit_history(tier, n):
     for k in range(n):
         rr = call(cur, '@vf_append', [S.tab, objs[k]])
         if len(rr) != 1 or rr[0].kind != 'return': ck.error('registration %d: %s' % (k, [r.kind for r in rr])); return ck
-        ck.prove('history: registration %d of %r returns slot %d (dense, first-come; case-insensitive duplicates reuse their slot)' % (k, keys[k], expected[k]), rr[0].state.pc, rr[0].value == expected[k], site='GlobalTable:history-slot')
+        ck.prove('history: registration %d of %r returns slot %d (dense, first-come; case-insensitive duplicates reuse their slot)' % (k, keys[k], expected[k]), rr[0].state.pc, rr[0].value == expected[k], site='GlobalTable:history-slot', replay=history_replay(n, True))
         cur = rr[0].state; cur.stack = []
     total = len(seen)
     rr = call(cur, '@vf_count', [S.tab])
-    ck.prove('history: count = number of distinct keys', rr[0].state.pc, rr[0].value == total, site='GlobalTable:history-count')
+    ck.prove('history: count = number of distinct keys', rr[0].state.pc, rr[0].value == total, site='GlobalTable:history-count', replay=history_replay(n, True))
     out = cur.alloc(S.L['osize'], 'out', default=ZERO); slotp = cur.alloc(4, 'slotp', default=ZERO)
     for low, slot in seen.items():
         k0 = [k for k in range(n) if keys[k].lower() == low][0]
         rr = call(cur, '@vf_lookup_slot', [S.tab, I(slot), out])
         key, v = S.read_obj(rr[0].state, out)
-        ck.prove('history: slot %d holds the first object registered under %r' % (slot, low), rr[0].state.pc, z3.And(rr[0].value == 1, *[x == y for x, y in zip(v, vals[k0])]), site='GlobalTable:history-lookup')
+        ck.prove('history: slot %d holds the first object registered under %r' % (slot, low), rr[0].state.pc, z3.And(rr[0].value == 1, *[x == y for x, y in zip(v, vals[k0])]), site='GlobalTable:history-lookup', replay=history_replay(n, True))
         qk = cur.alloc(8, 'q', default=ZERO)
         for i, ch in enumerate(low.upper().encode() + b'\0'): cur.objs[qk.obj].cells[i] = (z3.BitVecVal(ch, 8), 1)
         rr = call(cur, '@vf_lookup_key', [S.tab, qk, out, slotp])
         sl = ex.load(rr[0].state, slotp, IntT(32)); key, v = S.read_obj(rr[0].state, out)
-        ck.prove('history: lookup by name %r (any case) finds slot %d and the same object' % (low.upper(), slot), rr[0].state.pc, z3.And(rr[0].value == 1, sl == slot, *[x == y for x, y in zip(v, vals[k0])]), site='GlobalTable:history-key')
+        ck.prove('history: lookup by name %r (any case) finds slot %d and the same object' % (low.upper(), slot), rr[0].state.pc, z3.And(rr[0].value == 1, sl == slot, *[x == y for x, y in zip(v, vals[k0])]), site='GlobalTable:history-key', replay=history_replay(n, True))
     rr = call(cur, '@vf_lookup_slot', [S.tab, I(total), out])
-    ck.prove('history: slot == count returns nothing', rr[0].state.pc, rr[0].value == 0, site='GlobalTable:history-miss')
+    ck.prove('history: slot == count returns nothing', rr[0].state.pc, rr[0].value == 0, site='GlobalTable:history-miss', replay=history_replay(n, True))
     rr = call(cur, '@vf_lookup_slot', [S.tab, I(-1), out])
-    ck.prove('history: negative slot returns nothing', rr[0].state.pc, rr[0].value == 0, site='GlobalTable:history-miss')
+    ck.prove('history: negative slot returns nothing', rr[0].state.pc, rr[0].value == 0, site='GlobalTable:history-miss', replay=history_replay(n, True))
     qk = cur.alloc(8, 'q2', default=ZERO)
     for i, ch in enumerate(b'nope\0'): cur.objs[qk.obj].cells[i] = (z3.BitVecVal(ch, 8), 1)
     rr = call(cur, '@vf_lookup_key', [S.tab, qk, out, slotp])
-    ck.prove('history: unknown key returns nothing and slot -1', rr[0].state.pc, z3.And(rr[0].value == 0, ex.load(rr[0].state, slotp, IntT(32)) == -1), site='GlobalTable:history-miss')
+    ck.prove('history: unknown key returns nothing and slot -1', rr[0].state.pc, z3.And(rr[0].value == 0, ex.load(rr[0].state, slotp, IntT(32)) == -1), site='GlobalTable:history-miss', replay=history_replay(n, True))
+    ck.functions |= {'GlobalTable::AppendIfUnique', 'GlobalTable::GetAtSlotUnsafe', 'GlobalTable::GetByKeyUnsafe', 'GlobalTable::count'}
+    ck.reach('history', cur.pc)
+    return ck
+
+
+def unit_history_long(tier, n):
+    """sequential history across the first block boundary (15 objects per block): n registrations, then identical / case-changed re-registrations and lookups of entries on both sides of the boundary"""
+    ck = Checker('history_long_n%d' % n, tier, timeout_s=30)
+    S = Sys(1); ex = S.ex
+    blk = ex.resolve(ex.resolve(NamedT('%"class.mujoco::GlobalTable"')).fields[0]); bsize = ex.struct_layout(blk)[1]
+    def new_block(ex_, st, args, ins):
+        p = st.alloc(bsize, ('block', len(st.objs)), default=ZERO); return p
+    ex.stubs['_ZnwmSt11align_val_tRKSt9nothrow_t'] = new_block
+    S.st.aux['extern_init'] = {'@_ZSt7nothrow': lambda e, s_, p_: None}
+    keys = ['k%02d' % i for i in range(n)]
+    vals = [[z3.BitVec('w%d_%d' % (k, i), 32) for i in range(3)] for k in range(n)]
+    objs = [S.new_obj('obj%d' % k, keys[k], vals[k]) for k in range(n)]
+    cur = S.st
+    def call(st, fn, args):
+        s2 = st.clone(); s2.aux['tid'] = 0; ex.is_shared = None
+        return [r for r in ex.run(fn, args, s2) if r.kind in ('return', 'error')]
+    for k in range(n):
+        rr = call(cur, '@vf_append', [S.tab, objs[k]])
+        if len(rr) != 1 or rr[0].kind != 'return': ck.error('registration %d: %s' % (k, [r.kind for r in rr])); return ck
+        ck.prove('long history: registration %d gets slot %d' % (k, k), rr[0].state.pc, rr[0].value == k, site='GlobalTable:history-slot', replay=history_replay(n, False))
+        cur = rr[0].state; cur.stack = []
+    out = cur.alloc(S.L['osize'], 'out', default=ZERO); slotp = cur.alloc(4, 'slotp', default=ZERO)
+    for k in sorted({0, 7, 14, 15, n - 1}):
+        up = S.new_obj.__func__(S, 'dup%d' % k, keys[k].upper(), vals[k]) if False else None
+        p = cur.alloc(S.L['osize'], 'dup%d' % k, default=ZERO); S.put_obj(cur, p, 0, keys[k].upper(), vals[k])
+        rr = call(cur, '@vf_append', [S.tab, p])
+        ck.prove('long history: re-registering an identical object (key in other case) of slot %d returns slot %d' % (k, k), rr[0].state.pc, z3.And(z3.BoolVal(rr[0].kind == 'return'), rr[0].value == k) if rr[0].kind == 'return' else z3.BoolVal(False),
+                 site='GlobalTable:history-reregister', replay=history_replay(n, False))
+        rr = call(cur, '@vf_lookup_slot', [S.tab, I(k), out]); key_, v = S.read_obj(rr[0].state, out)
+        ck.prove('long history: slot %d holds object %d' % (k, k), rr[0].state.pc, z3.And(rr[0].value == 1, *[x == y for x, y in zip(v, vals[k])]), site='GlobalTable:history-lookup', replay=history_replay(n, False))
+        qk = cur.alloc(8, 'q%d' % k, default=ZERO)
+        for i, ch in enumerate(keys[k].upper().encode() + b'\0'): cur.objs[qk.obj].cells[i] = (z3.BitVecVal(ch, 8), 1)
+        rr = call(cur, '@vf_lookup_key', [S.tab, qk, out, slotp]); sl = ex.load(rr[0].state, slotp, IntT(32))
+        ck.prove('long history: lookup by name finds slot %d' % k, rr[0].state.pc, z3.And(rr[0].value == 1, sl == k), site='GlobalTable:history-key', replay=history_replay(n, False))
+    rr = call(cur, '@vf_count', [S.tab])
+    ck.prove('long history: count = %d after the re-registrations' % n, rr[0].state.pc, rr[0].value == n, site='GlobalTable:history-count', replay=history_replay(n, False))
     ck.functions |= {'GlobalTable::AppendIfUnique', 'GlobalTable::GetAtSlotUnsafe', 'GlobalTable::GetByKeyUnsafe', 'GlobalTable::count'}
     ck.reach('history', cur.pc)
     return ck
@@ -259,12 +299,42 @@ STRESS_CC = r'''
 #include <thread>
 #include <atomic>
 #include <csignal>
+#include <cstdio>
+#include <cctype>
 #include <unistd.h>
 static void vf40_alarm(int) { _exit(99); }
 extern "C" void mju_error(const char* msg, ...) { throw 1; }
 // stall injection: the hook runs before every store / atomic access of this translation unit (inserted in the IR); thread `vf40_tid` sleeps before its k-th hook
 static thread_local int vf40_me = -1, vf40_n = 0; static int vf40_tid = -1, vf40_k = 0, vf40_us = 0; static thread_local bool vf40_in = false;
 extern "C" void vf_atomic_point() { if (vf40_in) return; vf40_in = true; if (vf40_me >= 0 && vf40_me == vf40_tid && ++vf40_n == vf40_k) usleep(vf40_us); vf40_in = false; }
+// sequential histories on the real header: returns 0 if every slot / lookup is as documented, else a code
+extern "C" int vf40_history(int n, int shortmode) {
+  alignas(256) static unsigned char mem[sizeof(Table)]; memset(mem, 0, sizeof(mem)); Table* t = reinterpret_cast<Table*>(mem);
+  static VfObj objs[64]; const char* shortkeys[4] = {"Abc", "xyz", "aBC", "Q"};
+  int expect[64], distinct = 0;
+  for (int k = 0; k < n; k++) {
+    memset(&objs[k], 0, sizeof(VfObj));
+    if (shortmode) strcpy(objs[k].key, shortkeys[k]); else snprintf(objs[k].key, 8, "k%02d", k);
+    objs[k].a = 10 * k + 1; objs[k].b = 10 * k + 2; objs[k].c = 10 * k + 3;
+    if (shortmode && k == 2) { objs[k].a = objs[0].a; objs[k].b = objs[0].b; objs[k].c = objs[0].c; }
+    expect[k] = (shortmode && k == 2) ? 0 : distinct++;
+    int s; try { s = vf_append(t, &objs[k]); } catch (int) { return 10; }
+    if (s != expect[k]) return 11;
+  }
+  if (vf_count(t) != distinct) return 12;
+  for (int k = 0; k < n; k++) {
+    VfObj up = objs[k]; for (int i = 0; i < 8 && up.key[i]; i++) up.key[i] = (char)toupper(up.key[i]);
+    int s; try { s = vf_append(t, &up); } catch (int) { return 13; }
+    if (s != expect[k]) return 14;
+    VfObj out; int sl = -7;
+    if (!vf_lookup_slot(t, expect[k], &out) || out.a != objs[expect[k] == k || !shortmode ? k : 0].a) return 15;
+    if (!vf_lookup_key(t, up.key, &out, &sl) || sl != expect[k]) return 16;
+  }
+  if (vf_count(t) != distinct) return 17;
+  VfObj out; int sl;
+  if (vf_lookup_slot(t, distinct, &out) || vf_lookup_slot(t, -1, &out) || vf_lookup_key(t, "nope", &out, &sl) || sl != -1) return 18;
+  return 0;
+}
 // one run: mode 0 = writer + reader by slot, 1 = writer + reader by key, 2 = two writers. returns 0 ok, else a code
 extern "C" int vf40_run(int mode, int stall_tid, int stall_k, int stall_us) {
   signal(SIGALRM, vf40_alarm); alarm(20);
@@ -315,9 +385,21 @@ def stress_replay(kind):
     return rp
 
 
+def history_replay(n, shortmode):
+    """the same sequential history run natively on the real header with concrete payloads"""
+    def rp(model, witness):
+        import ctypes
+        so = stress_so()
+        def child():
+            lib = ctypes.CDLL(so); return lib.vf40_history(n, int(shortmode))
+        r = W.run_child(child, timeout=30)
+        return (r[0] == 'ok' and r[1] != 0) or r[0] in ('crash', 'timeout'), {'native history result (0 = all slots and lookups as documented)': str(r)[:80]}
+    return rp
+
+
 def units(tier):
     u = [('writer_reader_slot_pre0', 'unit_writer_reader', {'by': 'slot', 'pre': 0}), ('writer_reader_key_pre0', 'unit_writer_reader', {'by': 'key', 'pre': 0}), ('writer_reader_slot_pre1', 'unit_writer_reader', {'by': 'slot', 'pre': 1}),
          ('two_writers_distinct', 'unit_two_writers', {'same_key': False, 'equal': False}), ('two_writers_same_eq', 'unit_two_writers', {'same_key': True, 'equal': True}), ('two_writers_same_ne', 'unit_two_writers', {'same_key': True, 'equal': False}),
-         ('history_n3', 'unit_history', {'n': 3})]
-    if tier != 'quick': u += [('writer_reader_key_pre1', 'unit_writer_reader', {'by': 'key', 'pre': 1}), ('history_n4', 'unit_history', {'n': 4})]
+         ('history_n3', 'unit_history', {'n': 3}), ('writer_reader_key_pre1', 'unit_writer_reader', {'by': 'key', 'pre': 1}), ('history_long_n17', 'unit_history_long', {'n': 17})]
+    if tier != 'quick': u += [('history_n4', 'unit_history', {'n': 4}), ('history_long_n31', 'unit_history_long', {'n': 31})]
     return u
